@@ -247,9 +247,9 @@ Inductive outcome :=
 | OErr (e : gerr)           (* Call returns this error *)
 | OLost.                    (* no reply reaches the client *)
 
-(* one call: the handler returns (value, e), the value marshals as r *)
-Definition call (r : hres) (e : gerr) : outcome :=
-  match respond false (invoke false r e) with
+(* what the caller gets for a task that ended with (t.val, t.err) *)
+Definition settle (t : bytes * gerr) : outcome :=
+  match respond false t with
   | None => OLost
   | Some (RpResult raw) => OResult raw
   | Some (RpError w) =>
@@ -258,6 +258,38 @@ Definition call (r : hres) (e : gerr) : outcome :=
       | None => OLost
       end
   end.
+
+(* one call: the handler returns (value, e), the value marshals as r *)
+Definition call (r : hres) (e : gerr) : outcome := settle (invoke false r e).
+
+(* ---- the request's server-side context ------------------------------------------------ *)
+
+(* The state of the context the handler ran with at the moment the handler returns: still
+   live, cancelled (Server.CancelRequest(id), rpc.cancel, or the cancellation of the
+   context ServerOptions.NewContext supplied), or past the deadline of the NewContext
+   context. *)
+Inductive ctx_state := CtxLive | CtxCanceled | CtxDeadline.
+
+Definition ctx_err (cs : ctx_state) : gerr :=
+  match cs with CtxLive => enil | CtxCanceled => ECanceled | CtxDeadline => EDeadline end.
+
+(* invoke looks at the context only before the handler runs (sem.Acquire); once the
+   handler has returned, what it returned is the task's outcome whatever the state of the
+   context: keep = true, the code as it is.  keep = false is the variant in which a done
+   context replaces the error the handler returned (`if ctx.Err() != nil { return nil,
+   ctx.Err() }` in the err != nil branch); ErrsProofs refutes C14 for it. *)
+Definition invoke_ctx (keep : bool) (cs : ctx_state) (is_note : bool) (r : hres) (e : gerr) : bytes * gerr :=
+  if keep then invoke is_note r e
+  else if is_nil e then invoke is_note r e
+  else if is_note then ([], enil)
+  else match cs with
+       | CtxLive => ([], e)
+       | _ => ([], ctx_err cs)
+       end.
+
+(* one call whose handler returns (value, e) when its context is in state cs *)
+Definition call_ctx (keep : bool) (cs : ctx_state) (r : hres) (e : gerr) : outcome :=
+  settle (invoke_ctx keep cs false r e).
 
 (* ErrorCode of what Call returned; None when nothing came back *)
 Definition outcome_code (o : outcome) : option Z :=
